@@ -177,6 +177,15 @@ def run(tier):
                 p, lo, hi = block_prob(ref, m, n)
                 pref *= p
                 factors.append((lo, hi))
+            if pref == 0.0 and len(case.blocks) == 1 and not case.probe and ns[0] in (1, 2, NMAX - 1, NMAX):
+                # a chain whose block mass lies outside the support of the law (uniform): the generator never produces it -> outside the ensemble
+                smi0 = case.build(ns)
+                try:
+                    p0 = query(smi0)
+                except Exception:
+                    p0 = 0.0
+                records.append({"kind": "zero", "p": sc(p0), "tol": sc(1e-12)})
+                meta.append((case, smi0, f"outside the ensemble (chain length {ns[0]} outside the support of the law): reported {p0}", {}))
             if pref < 1e-9:
                 continue          # the statement quantifies over chain lengths with non-negligible mass
             smi = case.build(ns)
